@@ -14,7 +14,7 @@ from ..selftest import Mutant
 
 ID = "C15"
 TECHNIQUE = "writer/reader agreement of the shelf file-name template and regex (K6/K9 via re._parser), of the metadata record keys (K6); numbering provenance (K5); CFG ordering write-shelf-before-transform and delete-after-merge with exception edges (K1/K3) (ast)"
-FLOOR = 14
+FLOOR = 17
 SH = "breezy/shelf.py"
 UI = "breezy/shelf_ui.py"
 EXPLANATION = """
